@@ -142,3 +142,11 @@ Definition params_regime (t : list Z) (rate bin win : Q) : bool :=
   negb (Qle_bool rate 0) && dyadic 20 12 rate &&
   dyadic 13 12 bin && in_range (1 # 4096) (4096 # 1) bin &&
   dyadic 13 12 win && in_range (1 # 4096) (4096 # 1) win.
+
+(* ================= n coincident spikes of one cluster, in closed form =================
+   (stage 3, fix-c15) all n(n-1)/2 pairs fall into the zero-lag entry.  C15_coincident proves that this is what
+   the model returns for EVERY n; Corr.v uses it for trains too long to evaluate the model on (the 65537-spike
+   input on which the int32 array of the unrepaired code wrapped). *)
+Definition tri (n : Z) : Z := n * (n - 1) / 2.
+Definition coinc_onesided (n W : Z) : cube := [[ tri n :: repeat 0 (Z.to_nat W) ]].
+Definition coinc_sym (n W : Z) : cube := [[ repeat 0 (Z.to_nat W) ++ tri n :: repeat 0 (Z.to_nat W) ]].
